@@ -157,15 +157,13 @@ class DataPath:
 
         REPLACE = "path"
         ESC_CODE = rf"\{REPLACE}"
-        is_escaped = False
-        for k in list(spec.keys()):
-            if ESC_CODE in k:
-                is_escaped = True
-                spec_val = spec.pop(k)
-                k_new = k.replace(ESC_CODE, REPLACE)
-                spec[k_new] = spec_val
-        if is_escaped:
-            return spec
+        if any(ESC_CODE in k for k in spec.keys()):
+            # an escaped literal mapping: return an un-escaped copy (not a `DataPath`),
+            # leaving the caller's mapping as it is
+            return {
+                (k.replace(ESC_CODE, REPLACE) if ESC_CODE in k else k): v
+                for k, v in spec.items()
+            }
 
         if len(spec) > 1:
             raise MalformedDataPathSpec(
